@@ -2,7 +2,7 @@
 import ast
 
 from .repo import AnalysisError, dotted
-from .interp import Outcome, NORMAL, CFG_ATTRS, CFG_CLASSES
+from .interp import Outcome, NORMAL, CFG_CLASSES
 from .terms import NONE, TRUE, FALSE, const, is_const, plain
 
 BUILTINS = {"len", "sorted", "set", "list", "dict", "bool", "sum", "any",
@@ -126,6 +126,9 @@ class EvalMixin(object):
             if node.id in mod.constants:
                 return self.module_const(mod, node.id, depth + 1)
             return ("unknown", "name:" + node.id)
+        if isinstance(node, ast.Tuple):
+            # a tuple of other module constants
+            return ("tuple", tuple(self.fold(e, mod, depth + 1) for e in node.elts))
         if isinstance(node, ast.BinOp):
             l = self.fold(node.left, mod, depth + 1)
             r = self.fold(node.right, mod, depth + 1)
@@ -230,7 +233,7 @@ class EvalMixin(object):
                     return const(a / b)
                 if op == "//":
                     return const(a // b)
-                if op == "%" and not isinstance(a, str):
+                if op == "%":
                     return const(a % b)
                 if op == "**":
                     return const(a ** b)
@@ -514,8 +517,36 @@ class EvalMixin(object):
         d = self.decide(v, state)
         if d is not None:
             return [(state, d)]
+        if v[0] == "not" and v[1][0] == "cmp" and v[1][1] == "in":
+            return [(s, not b) for (s, b) in self.split(v[1], state, frame, node)]
         site = self.site(frame, node)
         out = []
+        if v[0] == "cmp" and v[1] == "in" and not is_const(v[2]):
+            # x in ("a", "b", ...): one branch per literal (x == "a", ...), so
+            # that what follows knows which one it is
+            lits = None
+            if v[3][0] == "tuple" and all(is_const(c) for c in v[3][1]):
+                lits = list(v[3][1])
+            elif v[3][0] == "const" and isinstance(v[3][1], tuple):
+                lits = [("const", c) for c in v[3][1]]
+            if lits is not None and 0 < len(lits) <= 16:
+                for c in lits:
+                    eq = ("cmp", "==", v[2], c)
+                    if self.decide(eq, state) is False:
+                        continue
+                    s = state.fork()
+                    self.learn(eq, True, s)
+                    self.learn(v, True, s)
+                    s.pc = s.pc + ((eq, True, site),)
+                    out.append((s, True))
+                s = state.fork()
+                self.learn(v, False, s)
+                for c in lits:
+                    self.learn(("cmp", "==", v[2], c), False, s)
+                s.pc = s.pc + ((v, False, site),)
+                out.append((s, False))
+                self.npaths += len(out) - 1
+                return out
         for b in (True, False):
             s = state.fork()
             self.learn(v, b, s)
@@ -523,6 +554,25 @@ class EvalMixin(object):
             out.append((s, b))
         self.npaths += 1
         return out
+
+    def known_const(self, t, state):
+        """the constant a term is known to equal on this path, or None"""
+        if is_const(t):
+            return t
+        for k, val in state.facts.items():
+            if val is True and k[0] == "cmp" and k[1] == "==":
+                if k[2] == t and is_const(k[3]):
+                    return k[3]
+                if k[3] == t and is_const(k[2]):
+                    return k[2]
+        if t[0] == "binop" and t[1] == "+":
+            a, b = self.known_const(t[2], state), self.known_const(t[3], state)
+            if a is not None and b is not None:
+                try:
+                    return const(a[1] + b[1])
+                except Exception:
+                    return None
+        return None
 
     def branch(self, test, state, frame):
         """-> list of (state, bool | Outcome)"""
